@@ -114,7 +114,9 @@ def body(case):
         out.evals += 1
         rules_pi = [robjs[i] for i in pi]
         try:
-            S = ns.s.Schema(list(rules_pi))
+            # the rule list handed over as a list, a tuple or a one-shot iterator
+            how = (len(pi) + sum(pi)) % 4 if pi else 0
+            S = ns.s.Schema(tuple(rules_pi) if how == 1 else iter(list(rules_pi)) if how == 2 else list(rules_pi))
             order = sorted(range(n), key=lambda j: len(schema.rules[pi[j]].path.parts))
             exp_rules = [rules_pi[j] for j in order]
             if len(S.rules) != n or any(a is not b for a, b in zip(S.rules, exp_rules)):
@@ -122,10 +124,12 @@ def body(case):
         except Exception as e:
             out.exc("no-raise|schema", e)
             break
+        vds = []
         for di, (doc, ex) in enumerate(zip(docs, exps)):
             which = "" if di == 0 else "|second-document"
             try:
                 vd = S.validate(doc)
+                vds.append(vd)
             except Exception as e:
                 out.exc("no-raise|validate", e)
                 break
@@ -169,6 +173,19 @@ def body(case):
                 break
         if out.violations:
             break
+        # the FIRST result, read again after the same schema has validated the second document
+        if len(vds) == 2:
+            try:
+                v0, e0_ = vds[0], exps[0]
+                pairs0 = sorted(tuple(exact(x) for x in f.path) for rt in v0.rule_tests for f in rt.failures)
+                if v0.is_valid is not e0_["valid"] or v0.num_failures != e0_["nfail"] or v0.num_rules_tested != e0_["ntested"] \
+                        or pairs0 != sorted(p for _, p in e0_["pairs"]):
+                    out.add("conjunction", "first-result-changed-by-second-validation",
+                            f"perm {pi}: after validating a second document the first result reads valid={v0.is_valid} nfail={v0.num_failures}, expected {e0_['valid']} {e0_['nfail']}")
+                    break
+            except Exception as e:
+                out.exc("no-raise|reread", e)
+                break
     return out
 
 
